@@ -311,7 +311,8 @@ def write_evidence(prop, tier, repo_root, db, allres, n_ob, n_dis, per_ob, sampl
             "undecided": [{"fn": r["fn"], "obligation": n} for r, n, _e in undecided],
             "unsupported": [{"fn": r["fn"], "reason": r["error"]} for r in errors],
             "violations": [{"fn": fn, "obligation": n, "replay": p, "native_replay_exit": rc} for fn, n, p, rc, _e in violations],
-            "functions_with_bounded_stand_in_only": [b.get("fn") for b in extra.get("bounded", []) if isinstance(b, dict)],
+            "functions_with_bounded_stand_in_only": [b.get("fn") for b in extra.get("bounded", [])
+                                                      if isinstance(b, dict) and "in addition" not in str(b.get("label"))],
             "property_clauses_not_decided": not_decided,
             "bounded_stand_ins": extra.get("bounded", []),
             "crosscheck": extra.get("crosscheck", {}),
